@@ -202,6 +202,25 @@ def gen_T15():
         need(frag in nss, 'NormalizedString.serialize changed (expected `%s`)' % frag)
     nsn = ast.unparse(find_def(t, 'normalize', 'NormalizedString'))
     need('utils.str.normalizeWhitespace(s.strip())' in nsn, 'NormalizedString.normalize changed')
+    # timestamps and the lazy reload; `config reload` and the reset commands of plugins/Config
+    sv = ast.unparse(find_def(t, '_setValue', 'Value'))
+    body = find_def(t, '_setValue', 'Value').body
+    stmts = [ast.unparse(x) for x in body if not (isinstance(x, ast.Expr) and isinstance(x.value, ast.Constant))]
+    need(stmts[:2] == ['self._lastModified = monotonic_time()', 'self.value = v'],
+         'Value._setValue: the timestamp must be refreshed unconditionally before the assignment (found %r)' % stmts[:2])
+    call = ast.unparse(find_def(t, '__call__', 'Value'))
+    for frag in ('if _lastModified > self._lastModified:', 'if self._name in _cache:', 'self.set(_cache[self._name])', 'return self.value'):
+        need(frag in call, 'Value.__call__ changed (expected `%s`)' % frag)
+    vsn = ast.unparse(find_def(t, 'setName', 'Value'))
+    for frag in ("if self._name == 'unset':", 'self._lastModified = 0', 'self._lastModified = monotonic_time()'):
+        need(frag in vsn, 'Value.setName changed (expected `%s`)' % frag)
+    need('_lastModified = monotonic_time()' in ast.unparse(opn) and 'if clear:' in ast.unparse(opn), 'open_registry: timestamp / clear changed')
+    need('return repr(self())' in ast.unparse(find_def(t, '__str__', 'Value')), 'Value.__str__ changed')
+    need('s = self.value' in ast.unparse(find_def(t, '__str__', 'String')), 'String.__str__ changed')
+    need('values = self()' in ast.unparse(find_def(t, '__str__', 'SeparatedListOf')), 'SeparatedListOf.__str__ changed')
+    cp = tree('plugins/Config/plugin.py')
+    need('registry.open_registry(world.registryFilename)' in ast.unparse(find_def(cp, '_reload')), 'Config._reload changed')
+    config_reset_forgets()
     progs = atomic_programs()
     out += ('(* order of validation / side effects / store in X.set and X.setValue, inlined along the MRO *)\n'
             'Inductive stm : Type :=\n| SSkip | SCheck | SError | SAssign\n| SSeq (a b : stm) | SIf (a b : stm) | STry (body handler : stm).\n')
@@ -385,3 +404,49 @@ def atomic_programs(strict=True):
 
 def stm_coq(p):
     return p[0] if len(p) == 1 else '(%s %s)' % (p[0], ' '.join(stm_coq(x) for x in p[1:]))
+
+
+def config_reset_forgets():
+    """shape of the reset commands of plugins/Config/plugin.py (re-stated in harness/c15.py, mirrored by TReset in
+    coq/C15/Model.v): three _setValue(<parent>.value, inherited=True), each immediately followed by
+    registry._cache.pop(changroup._name, None).  Anything else raises Shape."""
+    cp = tree('plugins/Config/plugin.py')
+    found = 0
+    for node in ast.walk(cp):
+        body = getattr(node, 'body', None)
+        if not isinstance(body, list):
+            continue
+        for blk in (body, getattr(node, 'orelse', []) or []):
+            for j, st in enumerate(blk):
+                src = ast.unparse(st)
+                if '_setValue(' in src and 'inherited=True' in src and isinstance(st, ast.Expr):
+                    need(src in ('changroup._setValue(netgroup.value, inherited=True)', 'changroup._setValue(group.value, inherited=True)'),
+                         'plugins/Config: unexpected reset statement `%s`' % src)
+                    need(j + 1 < len(blk) and ast.unparse(blk[j + 1]) == 'registry._cache.pop(changroup._name, None)',
+                         'plugins/Config: `%s` is not followed by registry._cache.pop(changroup._name, None)' % src)
+                    found += 1
+    need(found == 3 and ast.unparse(cp).count('inherited=True') == 3, 'plugins/Config: expected three reset statements, found %d' % found)
+    return True
+
+
+def config_reset_sites():
+    """non-strict companion of config_reset_forgets for the harness, which re-states the reset commands: for the three
+    reset statements in source order (reset channel: <var>.:net.#chan, <var>.#chan; reset network: <var>.:net) whether the
+    statement is followed by registry._cache.pop(changroup._name, None).  Never raises."""
+    out = []
+    try:
+        cp = tree('plugins/Config/plugin.py')
+        hits = []
+        for node in ast.walk(cp):
+            for attr in ('body', 'orelse'):
+                blk = getattr(node, attr, None)
+                if not isinstance(blk, list):
+                    continue
+                for j, st in enumerate(blk):
+                    if isinstance(st, ast.Expr) and '_setValue(' in ast.unparse(st) and 'inherited=True' in ast.unparse(st):
+                        nxt = ast.unparse(blk[j + 1]) if j + 1 < len(blk) else ''
+                        hits.append((st.lineno, nxt == 'registry._cache.pop(changroup._name, None)'))
+        out = [h[1] for h in sorted(hits)]
+    except Exception:
+        out = []
+    return (out + [False, False, False])[:3]
